@@ -501,6 +501,7 @@ CORNER_ALPHABET = [
     "i2^53+1", "i2^62", "i-2^63", "i2^63-1", "i2^40", "f0.5", "f0.1", "f-0.0", "nan", "true",
     "np_i8", "np_u64s", "np_f32_0.1", "np_f64", "np_bool", "np_f16",
 ]
+CORNER_ALPHABET_QUICK = ["i2^53+1", "i2^63-1", "i-2^63", "i2^40", "f0.5", "f0.1", "nan", "true", "np_u64s", "np_f32_0.1"]
 NAME_ALPHABET = ["_p", "a b", "a.b", "ü", "0", "values", "tensor", "module", "__d__", "a-b", "x.y.z", "a:b"]
 NAME_VALUES = ["i-1", "arr:f32:(3,)", "t_f64", "path_rel"]  # quick: the first two
 
@@ -678,7 +679,8 @@ def _width_graphs(quick):
     Cost decides the sub-lattices: element kinds stored as attributes (str, mixed scalars) or as one array
     (all-numeric control) are cheap at any width; kinds that cost one zarr node per element (ndarray, nested
     pair, object) make the library's list decoder quadratic (a 101-element list of arrays takes ~15 s to load).
-      quick   : cheap kinds: all widths on top level, widths {11, 101} one level deep;
+      quick   : cheap kinds: str at all widths, mixed scalars at all but {99, 100}, the all-numeric control at
+                             {10, 11, 101} on top level; str and mixed at widths {11, 101} one level deep;
                 node kinds : widths {10, 11, 12} on top level (objects {10, 11}), width 11 one level deep in a list.
       thorough: cheap kinds: all widths, top level and both wrappers;
                 node kinds : all widths on top level (objects {10, 11, 101}); one level deep widths {11, 12, 25}
@@ -694,9 +696,9 @@ def _width_graphs(quick):
                 if elem == "object" and n not in (10, 11, 101):
                     continue
                 if elem in cheap:
-                    top = True
-                    deep_list = deep_dict = (not quick) or n in (11, 101)
-                    deep_dict = deep_dict and not quick
+                    top = (not quick) or elem == "str" or (elem == "mixed_scalars" and n not in (99, 100)) or n in (10, 11, 101)
+                    deep_list = (not quick) or (n in (11, 101) and elem != "all_numeric")
+                    deep_dict = not quick
                 elif quick:
                     top = n in (10, 11, 12)
                     deep_list = n == 11 and kind == "list"
@@ -804,7 +806,7 @@ def grammar(tier):
             seqs.append(O("Root", l=C("list", *[L(x) for x in tup]), t=C("tuple", *[L(x) for x in tup])))
     add("sequence", seqs)
     # G. numeric corners: pairs (quick: unordered with the diagonal; thorough: ordered), as list and tuple
-    ca = CORNER_ALPHABET
+    ca = CORNER_ALPHABET_QUICK if quick else CORNER_ALPHABET
     add("numeric_corner_pair", [
         O("Root", l=C("list", L(a), L(b)), t=C("tuple", L(a), L(b)))
         for i, a in enumerate(ca) for j, b in enumerate(ca) if (i <= j or not quick)
